@@ -989,6 +989,11 @@ class TelnetBootstrapProtocol(TelnetProtocol, ProtocolTransportMixin):
     def dataReceived(self, data):
         self.protocol.dataReceived(data)
 
+    def write(self, data):
+        # The TelnetTransport below us turns LF into CR LF (and doubles IAC);
+        # translating here as well would put CR CR LF on the wire.
+        self.transport.write(data)
+
     def enableLocal(self, opt):
         if opt == ECHO:
             return True
